@@ -30,7 +30,7 @@ THEOREMS = ["C13_complete_undefined_class_type", "C13_complete_undefined_class_p
             "C13_complete_surplus_template_argument", "C13_complete_missing_template_argument",
             "C13_complete_incompatible_argument",
             "C13_complete_incompatible_initialiser", "C13_complete_operator_arity", "C13_complete_syntax_error",
-            "C13_diagnostics_persist", "C13_sound_refuted", "C13_sound_no_not_found_partial", "C13_visited_all_partial", "C13_sound_no_not_found_workspace_partial", "C13_visited_all_workspace_partial"]
+            "C13_diagnostics_persist", "C13_sound_refuted", "C13_sound_no_not_found_partial", "C13_visited_all_partial", "C13_sound_no_not_found_workspace_partial", "C13_visited_all_workspace_partial", "C13_sound_no_not_found_field_access_partial", "C13_visited_all_field_access_partial"]
 TRUSTED = [
     "Coq 8.16.1 kernel (coqc; vm_compute in the _refuted witness and the non-vacuity Examples); no axioms",
     "hand-written model of index.rs / index/bang_operator.rs / symbol_map/typ.rs / handlers/diagnostics.rs in "
